@@ -133,6 +133,15 @@ def run_case(case):
             if rel in order:
                 order.remove(rel)
             order.append(rel)
+        # the times touch really left on disk (before the harness clock replaces them): files touched later are
+        # not older than files touched earlier, whether they existed before or had to be created
+        real = [(rel, after[rel][3]) for rel in order if rel in after and after[rel][0] == "file"]
+        for (a, ta), (b_, tb) in zip(real, real[1:]):
+            if tb < ta:
+                viols.append(Violation({"kind": "touch-times-against-touch-order"},
+                                       f"{b_} was touched after {a} but carries an older modification time "
+                                       f"({tb} < {ta} ns): a target's output can end up older than its input"))
+                break
         changed = [k for k, x, y in proj.snap_diff(before, after)
                    if not k.startswith(".gwf/") and k != ".gwfconf.json" and y is not None]
         if set(changed) - set(order):
